@@ -66,12 +66,12 @@ def gen_indices(rng, n):
     return idx
 
 
-def gen_case(rng, idx, start_method="fork"):
+def gen_case(rng, idx, start_method="fork", max_n=3):
     from harness import scripted_envs as se
 
     obs_kind = OBS_KINDS[idx % len(OBS_KINDS)]
     act_kind = rng.choice(["box", "discrete", "multidiscrete", "multibinary", "box_asym"])
-    n = rng.randint(1, 3)
+    n = rng.randint(1, max_n)
     img = obs_kind in ("image_hwc", "image_chw", "dict")
     # info / reset_info tag -1 = the env returns an EMPTY dict (falsy)
     scripts = [se.gen_script(rng, n_episodes=rng.randint(1, 4), max_len=5, tag_base=(i * 50 if img else i * 1000), tag_cap=255 if img else se.MAXTAG - 1,
@@ -90,8 +90,14 @@ def gen_case(rng, idx, start_method="fork"):
             calls.append(["reset"])
         elif u < 0.68:
             calls.append(["seed", rng.randint(0, 1000)])
-        elif u < 0.75:
+        elif u < 0.72:
             calls.append(["set_options", [rng.choice([None, rng.randint(1, 99)]) for _ in range(n)]])
+        elif u < 0.74:
+            calls.append(["set_options_all", rng.choice([None, None, rng.randint(1, 99)])])     # set_options(None | {} | dict)
+        elif u < 0.75:
+            calls.append(["seed", None])                                                        # VecEnv.seed() draws the seed itself
+        elif u < 0.76:
+            calls.append(["has_attr", rng.choice(["attr_value", "zz_missing_attribute"])])
         elif u < 0.84:
             calls.append(["get_attr", gen_indices(rng, n)])
         elif u < 0.90:
@@ -114,7 +120,8 @@ def gen_case(rng, idx, start_method="fork"):
             sleeps.append({})
     wrapped = [rng.random() < 0.4 for _ in range(n)]
     reset_delays = [0.0 if pattern == "none" else rng.choice([0.0, 0.004, 0.012]) for _ in range(n)]
-    return {"obs_kind": obs_kind, "act_kind": act_kind, "n": n, "scripts": scripts, "calls": calls, "sleeps": sleeps, "wrapped": wrapped, "reset_delays": reset_delays,
+    return {"obs_kind": obs_kind, "act_kind": act_kind, "n": n, "scripts": scripts, "calls": calls, "sleeps": sleeps, "wrapped": wrapped,
+            "end": rng.choice(["close", "close", "close_twice", "close_while_waiting"]), "actions_as_list": rng.random() < 0.2, "reset_delays": reset_delays,
             "delay_pattern": pattern, "start_method": start_method, "schedule": [rng.randrange(64) for _ in range(400)], "id": idx}
 
 
@@ -167,7 +174,7 @@ def make_pair(case):
     dummy = DummyVecEnv([make_fn(sc, wr[i], env_id=i, **kw) for i, sc in enumerate(case["scripts"])])
     rd = case.get("reset_delays") or [0.0] * case["n"]
     sub = SubprocVecEnv([make_fn(sc, wr[i], reset_delay=rd[i], env_id=i, sleep_plan=case["sleeps"][i], **kw) for i, sc in enumerate(case["scripts"])],
-                        start_method=case.get("start_method", "fork"))
+                        start_method=case["start_method"] if "start_method" in case else "fork")
     return dummy, sub
 
 
@@ -181,12 +188,27 @@ def do_call(venv, case, call):
         return {"obs": obs, "reset_infos": venv.reset_infos}
     if call[0] == "step":
         acts = np.stack([c01.action_value(case["act_kind"], a) for a in call[1]])
+        if case.get("actions_as_list"):
+            acts = list(acts)          # a plain list of per-env actions instead of an array
         obs, rews, dones, infos = venv.step(acts)
         return {"obs": obs, "rews": rews, "dones": dones, "infos": infos, "reset_infos": venv.reset_infos}
     if call[0] == "seed":
+        if call[1] is None:
+            np.random.seed(12345 + len(case["calls"]))    # both classes must draw the same seed from np.random
         ret = venv.seed(call[1])
     elif call[0] == "set_options":
-        ret = venv.set_options([c01.opt_dict(o) for o in call[1]])
+        lst = [c01.opt_dict(o) for o in call[1]]
+        ret = venv.set_options(lst)
+        for d in lst:                                      # set_options must have copied: later changes by the caller are not seen
+            if d:
+                d["k"] = -777
+    elif call[0] == "set_options_all":
+        d = c01.opt_dict(call[1], empty_as_none=(call[1] is None and len(case["calls"]) % 2 == 0))
+        ret = venv.set_options(d)
+        if d:
+            d["k"] = -777
+    elif call[0] == "has_attr":
+        ret = venv.has_attr(call[1])
     elif call[0] == "get_attr":
         ret = venv.get_attr("attr_value", indices=call[1])
     elif call[0] == "set_attr":
@@ -284,6 +306,8 @@ def run_pair(case, calls=None):
             for k, call in enumerate(calls):
                 rd = do_call(dummy, case, call)
                 rs = do_call(sub, case, call)
+                if call[0] == "seed" and call[1] is None and rs.get("ret"):
+                    case.setdefault("_drawn", {})[k] = int(rs["ret"][0])      # oracle input of the model: the seed VecEnv.seed() drew
                 for sig, msg in compare_call(call, rd, rs):
                     probs.append((sig, f"call {k} {call[:1]}: {msg}"))
                 trace.append(decode_call(case, sub, call, rs))
@@ -297,6 +321,19 @@ def run_pair(case, calls=None):
                 proc.terminate()
             sub.closed = True
             raise
+        else:
+            # documented shutdown patterns: close() twice is a no-op; close() with a step still outstanding first drains the pipes
+            import numpy as np
+
+            from harness import c01
+
+            if case.get("end") == "close_while_waiting" and any(c[0] == "reset" for c in calls):
+                acts = np.stack([c01.action_value(case["act_kind"], a) for a in range(case["n"])])
+                dummy.step_async(acts)
+                sub.step_async(acts)
+            if case.get("end") == "close_twice":
+                sub.close()
+                dummy.close()
         finally:
             dummy.close()
             sub.close()
@@ -344,13 +381,18 @@ def coq_calls(case, calls=None):
     calls = case["calls"] if calls is None else calls
     n = case["n"]
     out = []
-    for c in calls:
+    for k, c in enumerate(calls):
         if c[0] == "reset":
             out.append("KaReset")
         elif c[0] == "step":
             out.append(f"KaStep {coq_list(c[1], coq_Z)}")
         elif c[0] == "seed":
-            out.append(f"KaSeed {coq_Z(c[1])}")
+            sv = c[1] if c[1] is not None else case.get("_drawn", {}).get(k, 0)
+            out.append(f"KaSeed {coq_Z(sv)}")
+        elif c[0] == "set_options_all":
+            out.append(f"KaSetOptions {coq_list([c[1]] * n, lambda o: coq_option(o, coq_Z))}")
+        elif c[0] == "has_attr":
+            pass        # driven on both classes and compared; not part of the protocol model's call language (tied by its skeleton)
         elif c[0] == "set_options":
             out.append(f"KaSetOptions {coq_list(c[1], lambda o: coq_option(o, coq_Z))}")
         elif c[0] == "get_attr":
@@ -449,9 +491,10 @@ def main():
     n_corpus = len(cases)
     n_gen = 120 if quick else 300
     for k in range(n_gen):
-        # forkserver / spawn start a fresh interpreter per worker (several seconds): thorough tier only, every 5th history
-        method = "fork" if quick or k % 5 else ("forkserver" if k % 10 else "spawn")
-        cases.append(gen_case(chk.rng, k, start_method=method))
+        # forkserver / spawn start a fresh interpreter per worker (several seconds): thorough tier only, every 5th history;
+        # start_method=None (the constructor's own default, forkserver where available) every 50th
+        method = "fork" if quick or k % 5 else ("forkserver" if k % 10 else ("spawn" if k % 50 else None))
+        cases.append(gen_case(chk.rng, k, start_method=method, max_n=3 if quick or method != "fork" else 5))
     hist = {"start_method": {}, "delay_pattern": {}, "obs_kind": {}, "n_envs": {}, "calls": {}, "total_calls": 0, "model_compared": 0}
     distinct = set()
     results = []
@@ -484,7 +527,8 @@ def main():
     vals = common.coq_eval_many("C02", HEADER, exprs, shard=40, procs=4) if exprs else []
     mvals = {i: (vals[2 * k], vals[2 * k + 1]) for k, i in enumerate(mcases)}
     for i, (c, (probs, trace)) in enumerate(zip(cases, results)):
-        hist["start_method"][c.get("start_method", "fork")] = hist["start_method"].get(c.get("start_method", "fork"), 0) + 1
+        sm = str(c.get("start_method", "fork"))
+        hist["start_method"][sm] = hist["start_method"].get(sm, 0) + 1
         hist["delay_pattern"][c.get("delay_pattern", "?")] = hist["delay_pattern"].get(c.get("delay_pattern", "?"), 0) + 1
         hist["obs_kind"][c["obs_kind"]] = hist["obs_kind"].get(c["obs_kind"], 0) + 1
         hist["n_envs"][c["n"]] = hist["n_envs"].get(c["n"], 0) + 1
